@@ -403,6 +403,9 @@ def check(repo, rep, tier):
     from ..lints import r_unbound_reads
     r_unbound_reads(repo, rep, 'R19.6', repo.py_files('depccg/printer'), 'the format cannot be written at all')
     rp.r_retrieve_tree(repo, rep, 'R19.6', {'labels'})
+    from .c18 import r_printers_pure
+    r_printers_pure(repo, rep, 'R19.6', 'R19.6', 'the tokens are shared by all trees of a sentence and by every later rendering: a value another format cannot write '
+                    '(a dict where an attribute string is expected, a key removed) makes that rendering raise')
     from ..lints import r_templates_constant
     r_templates_constant(repo, rep, 'R19.6', repo.py_files('depccg/printer'),
                          'a word that contains a brace makes str.format raise (KeyError / IndexError / ValueError) and the whole batch is not rendered')
